@@ -4,11 +4,13 @@ import (
 	"bytes"
 	"context"
 	"crypto/ed25519"
+	"errors"
 	"fmt"
 	"io"
 	"sort"
 	"strconv"
 	"strings"
+	"sync"
 	"testing/synctest"
 	"time"
 
@@ -172,7 +174,7 @@ func (h *history) open(c storeCfg, dstore ds.Batching, now int64) (*liveStore, e
 			o.GCLookaheadInterval = h.GCLook
 		}
 		if st.dstore == nil {
-			st.dstore = dssync.MutexWrap(ds.NewMapDatastore())
+			st.dstore = &faultDS{Batching: dssync.MutexWrap(ds.NewMapDatastore())}
 		}
 		ps, err := pstoreds.NewPeerstore(context.Background(), st.dstore, o)
 		if err != nil {
@@ -184,6 +186,44 @@ func (h *history) open(c storeCfg, dstore ds.Batching, now int64) (*liveStore, e
 }
 
 // ---- execution ------------------------------------------------------------------------------------
+
+// faultDS fails ONE Put (the one whose index was armed) with an error; everything else goes through.
+type faultDS struct {
+	ds.Batching
+	mu     sync.Mutex
+	puts   int
+	failAt int // -1 / 0 value with armed=false: no fault
+	armed  bool
+	fired  bool
+}
+
+func (f *faultDS) Put(ctx context.Context, k ds.Key, v []byte) error {
+	f.mu.Lock()
+	n := f.puts
+	f.puts++
+	fail := f.armed && n == f.failAt
+	if fail {
+		f.armed, f.fired = false, true
+	}
+	f.mu.Unlock()
+	if fail {
+		return errors.New("verif: injected datastore write failure")
+	}
+	return f.Batching.Put(ctx, k, v)
+}
+
+// arm makes the k-th Put from now on fail (k = 0: the next one); disarm reports whether it fired.
+func (f *faultDS) arm(k int) {
+	f.mu.Lock()
+	f.failAt, f.armed, f.fired = f.puts+k, true, false
+	f.mu.Unlock()
+}
+func (f *faultDS) disarm() bool {
+	f.mu.Lock()
+	defer f.mu.Unlock()
+	f.armed = false
+	return f.fired
+}
 
 type failure struct {
 	Step  int    `json:"step"` // index of the step after which the disagreement was observed (len(steps) = epilogue)
@@ -199,6 +239,7 @@ type executor struct {
 	h      *history
 	m      *model
 	stores []*liveStore
+	stepNo int
 	st     stats
 	fails  []failure
 	step   int
@@ -251,6 +292,7 @@ func (x *executor) run() []failure {
 	synctest.Wait()
 
 	for i, s := range x.h.Steps {
+		x.stepNo = i
 		x.step = i
 		x.apply(s)
 		if len(x.fails) > 0 {
@@ -505,8 +547,29 @@ func (x *executor) apply(s step) {
 		x.st["superseded_addrs_evicted"] += evicted
 		x.st["superseded_addrs_kept_connected"] += kept
 		env := x.envelope(s.Peer, s.Seq, s.Addrs)
-		for _, st := range x.stores {
+		for si := 0; si < len(x.stores); si++ {
+			st := x.stores[si]
+			// "accepted only if its sequence number is not lower than the stored one" - also when a datastore
+			// write fails during the call: on every fourth refused (lower-seq) record, the 1st/2nd/3rd Put of
+			// the call fails once. A store on which the fault fired is not judged any further (what a failed
+			// write leaves behind is not stated), except that the lower-seq record must not have been accepted.
+			fds, _ := st.dstore.(*faultDS)
+			injected := fds != nil && st.cm == nil && !accepted && (x.stepNo+si)%4 == 0
+			if injected {
+				fds.arm((x.stepNo / 4) % 3)
+				x.st["lower_seq_consumes_with_the_next_datastore_write_armed_to_fail"]++
+			}
 			ok, err := st.ab.ConsumePeerRecord(env, s.TTL)
+			if injected && fds.disarm() {
+				x.st["lower_seq_records_consumed_under_a_datastore_write_fault"]++
+				if ok {
+					x.fail(st, "consume-return-under-write-fault", "ConsumePeerRecord(seq=%d) returned accepted=true while a datastore write of the call failed; stored seq: %s (a lower sequence number is never accepted)", s.Seq, seqString(recBefore, prevSeq))
+				}
+				st.closer.Close()
+				x.stores = append(x.stores[:si], x.stores[si+1:]...)
+				si--
+				continue
+			}
 			accepted, recBefore, prevSeq := accepted, recBefore, prevSeq
 			if st.cm != nil {
 				// capped stores have their own state: same acceptance rule on their own stored record
